@@ -587,6 +587,20 @@ func famHistories(t *testing.T, r *hx.Rng, o *hx.Out, nh int) {
 				}
 			}
 			switch {
+			case r.Chance(1, 60):
+				// loopback attempt: an INIT end naming 09-localhost as counterparty client, then a TRY on the
+				// same chain over the localhost client with the sentinel proof (the localhost client would
+				// verify it against the chain's own store; only ValidateBasic refuses it)
+				c := r.Intn(2)
+				before := len(w.conns(c))
+				run(&Op{Kind: "conn_init", C: c, Client: clientIDs[r.Intn(2)], CpClient: "09-localhost", CpPrefix: "ibc", Tag: "loopback-init"})
+				all := w.conns(c)
+				if len(all) == before {
+					continue
+				}
+				ic := all[len(all)-1]
+				op = &Op{Kind: "conn_try", C: c, Client: "09-localhost", CpClient: ic.ClientId, CpConn: ic.Id, CpPrefix: "ibc", Versions: ic.Versions,
+					Delay: ic.DelayPeriod, Proof: Prf{IsGarbage: true, Garbage: []byte{0x01}}, PH: clienttypes.NewHeight(w.rev(c), 2), Tag: "loopback-try"}
 			case len(pendSteps) > 0 && r.Chance(1, 2):
 				op = pendSteps[r.Intn(len(pendSteps))]
 			case roll < 34 && len(cs)+len(hs) > 0:
